@@ -1415,7 +1415,19 @@ def load(
                 module = __import__(".".join(parts[:i]), fromlist=[parts[i]])
             except ImportError:
                 continue
-            return operator.attrgetter(".".join(parts[i:]))(module)
+            attr = ".".join(parts[i:])
+            try:
+                return operator.attrgetter(attr)(module)
+            except AttributeError:
+                # built-in types that have no name in `builtins` (NoneType, function, ...)
+                # report `builtins` as their module; they are exposed by `types`
+                if module.__name__ == "builtins":
+                    import types
+
+                    for t in vars(types).values():
+                        if isinstance(t, type) and t.__qualname__ == attr:
+                            return t
+                raise
         raise ImportError(f"Cannot import skip type '{name}'")
 
     file_skip_types = (
